@@ -28,7 +28,7 @@ func (c01) Plan(tier string) wk.Plan {
 		n = 10_000_000
 	}
 	return wk.Plan{
-		Level: "exploration", Cases: n, Chunk: 500, Configs: single("seq", 16), CaseBudget: 20,
+		Level: "exploration", Cases: n, Chunk: 500, Configs: single("seq", 16), CaseBudget: 8,
 		Rule:          "case = one generated value-language program (G-prog: type-directed, binding constructs let/func/closure/if/switch/try/curry/map-field-closure biased into 1st..3rd call, method, list and map argument positions; shadowing across function bodies) x 4 argument tuples x {default optimizer, SetOptimizer(nil)}; oracle = reference interpreter (lists by element sequence, maps by key/value set, numbers by kind and value, ok-vs-error, thrown text) + let-bind hook (compile index = run-time slot). A fixed regression corpus runs first. Non-trivial = the optimised AST is not a single constant and the program contains a binding construct; distinct by source text.",
 		Floor:         200,
 		FloorCounters: map[string]int64{"hook_letbind_events": 100},
